@@ -27,6 +27,10 @@ CHECKS = {
          "Trace_C10.tla keeps the reference / previous member of each family: SM-limit families (cos(beta-alpha) = 0, m_h = m_hSM = m over six values) must be independent of m within 1e-9 of one light-Higgs term; decoupling families (M = 1..31.6 TeV, fixed quartics, m_hSM = m_h) must shrink per component by 0.45 per factor sqrt(10) relative to the magnitude of the component's sub-parts",
          "first decoupling step only asserted not to grow (valid large-tan(beta) points reach 0.72); K12 (bosonic 2L noise >= 10 TeV) is a known finding; scales computed by the driver",
          "TLA+ trace validation (Trace_C10.tla) with family state", "DESIGN 5/C10"),
+ "C12": ("model_checking",
+         "Linalg.tla models, on exact Gaussian-integer matrices with integer eigenvector matrices (Q Q^T = c I), what GM2Calc composes on top of the numerical back ends - eigen -> sort by |w| -> adjoint; eigen -> phase i for negative eigenvalues -> sort -> transpose; svd -> reverse values and permute vectors -> transpose - with the back end abstracted as 'any exact decomposition in its own convention' (all tie-breakings explored); the documented contracts hold for all matrices in the bounded class and four convention slips violate them.  Trace_C12.tla validates calls of the real templates (fs_svd, svd, reorder_svd, [fs_]diagonalize_hermitian, [fs_|reorder_]diagonalize_symmetric; real and complex; 2x2..4x4) on TLC-enumerated classes (distinct/double/triple/all-equal/zero/negative-pair/hierarchical/integer/zero-row spectra x diagonal/signed-permutation/random-unitary bases): reconstruction, unitarity, sign, ordering and error bounds with exact products",
+         "tolerance relative to the matrix norm (512 eps; 2^27 eps for real 3x3 eigen problems solved by Eigen's closed-form computeDirect); non-square instantiations are not exercised",
+         "TLC model checking of Linalg.tla + TLA+ trace validation (Trace_C12.tla, exact complex matrix products in Dyadic.tla)", "DESIGN 5/C12"),
  "C13": ("model_checking",
          "SLHA.tla: an operational model of the reader (append lines, ordered passes over same-named blocks, scale filter, token conversion) is model-checked exhaustively against the denotation of a file (last assignment per block/key among the blocks read) and against the rewrite classes of the property, with wrong reader variants as non-vacuity checks; TLC-enumerated abstract files are rendered in several concrete layouts and in the normal form of their denotation, read by the real GM2_slha_io, and the recorded parameters/exception classes are validated by TLC (Trace_C13.tla); every documented key of the three formats is changed alone and must move exactly the documented parameter; whole-program runs of rewritten complete inputs must give the same result",
          "bounded files (MaxLen 3 quick / 5 thorough over a 19-symbol alphabet); matrix blocks only through whole-program runs; trusted: TLC, renderer (harness/lib/slha_render.py)",
